@@ -160,8 +160,15 @@ class Sym(float):
 
     __trunc__ = __int__
 
-    def __floor__(self): return call('floor', math.floor, self)
-    def __ceil__(self): return call('ceil', math.ceil, self)
+    def __floor__(self):
+        v = math.floor(float.__float__(self))
+        _ev('int', f'floor({show(self.node)})', v)
+        return v
+
+    def __ceil__(self):
+        v = math.ceil(float.__float__(self))
+        _ev('int', f'ceil({show(self.node)})', v)
+        return v
 
     # -- branches --------------------------------------------------------------------------------------------
     def _cmp(self, o, op, fn):
@@ -256,9 +263,14 @@ class Tracing:
         for name in MATH1 + MATH2 + ['floor', 'ceil']:
             real = getattr(math, name)
             if name in ('floor', 'ceil'):
+                # math.floor/ceil return an int (used as an index, in `10 * m`, …): a branch event, the sample decides
                 def mkf(real=real, name=name):
                     def f(x):
-                        return call(name, real, x) if isinstance(x, Sym) else real(x)
+                        if isinstance(x, Sym):
+                            v = real(float.__float__(x))
+                            _ev('int', f'{name}({show(x.node)})', v)
+                            return v
+                        return real(x)
                     return f
                 w = mkf()
             else:
